@@ -449,6 +449,12 @@ impl FramedReader {
         }
     }
 
+    /// Discard buffered bytes and parser state. Called when a new connection is established
+    pub(crate) fn reset(&mut self) {
+        self.parser.reset();
+        self.buffer = ReadBuffer::new();
+    }
+
     pub(crate) async fn next_frame(
         &mut self,
         io: &mut PhysLayer,
